@@ -20,6 +20,8 @@ for d in sorted(glob.glob(os.path.join(V, "seeded", "C*-*"))):
         p = subprocess.run([os.path.join(V, "check"), prop, "--tier", "quick"], capture_output=True, text=True, timeout=3000)
     finally:
         subprocess.run(["git", "-C", "/repo", "checkout", "--", "."], check=True)
+        # the evidence file was just rewritten from a run against a CHANGED tree: never leave it for a commit
+        subprocess.run(["git", "-C", V, "checkout", "--", "evidence/%s.json" % prop])
     out = p.stdout.strip().split("\n")
     viol = [l for l in out if l.startswith("VIOLATION")]
     replay = None
